@@ -169,6 +169,9 @@ fn max_level() -> i64 { LEVEL_LIMIT.load(std::sync::atomic::Ordering::SeqCst) }
 #[nutype(validate(greater_or_equal = 0, less_or_equal = max_level()), derive(Debug, Arbitrary))]
 struct Level(i64);
 
+#[nutype(validate(predicate = |v| v.len() <= 8), derive(Debug, Clone, PartialEq, Serialize, Deserialize, AsRef))]
+struct Digest(Vec<u8>);
+
 fn bits_eq_vec(a: &[f64], b: &[f64]) -> bool {
     a.len() == b.len() && a.iter().zip(b).all(|(x, y)| x.to_bits() == y.to_bits())
 }
@@ -358,6 +361,28 @@ fn main() {
         let l: Vec<i64> = (0..3).map(|_| Lvl::default().into_inner()).collect();
         report("C03", "Lvl", "default_sanitized", l == vec![10, 10, 10] && Lvl::try_new(50).map(|t| t.into_inner()).ok() == Some(10), format!("{:?}", l));
         let _ = std::panic::take_hook();
+    }
+    // ------------------------------------------------------------ Digest(Vec<u8>): a byte vector is still a sequence on the wire
+    {
+        for (k, raw) in [vec![], vec![1u8, 2, 3], vec![0u8, 255, 128, 7], vec![200u8; 8], vec![1u8; 9]].iter().enumerate() {
+            let t = Digest::try_new(raw.clone());
+            report("C01", "Digest", "try_new", t.is_ok() == (raw.len() <= 8) && t.as_ref().map(|t| t.as_ref() == raw).unwrap_or(true), format!("input {}", k));
+            let mp_i = rmp_serde::to_vec(raw).unwrap();
+            let ron_i = ron::to_string(raw).unwrap();
+            let js_i = serde_json::to_string(raw).unwrap();
+            if let Ok(t) = &t {
+                let mp_t = rmp_serde::to_vec(t).unwrap();
+                let ron_t = ron::to_string(t).unwrap();
+                report("C10", "Digest", "serialize_transparent", serde_json::to_string(t).unwrap() == js_i && mp_t == mp_i
+                       && (ron_t == format!("Digest({})", ron_i) || ron_t == format!("({})", ron_i)), format!("input {} mp {:?} ron {}", k, mp_t, ron_t));
+                report("C10", "Digest", "cross_read_as_inner", rmp_serde::from_slice::<Vec<u8>>(&mp_t).ok().as_ref() == Some(raw), format!("input {}", k));
+                report("C10", "Digest", "roundtrip", rmp_serde::from_slice::<Digest>(&mp_t).ok().as_ref() == Some(t)
+                       && ron::from_str::<Digest>(&ron_t).ok().as_ref() == Some(t), format!("input {}", k));
+            }
+            let de_mp = rmp_serde::from_slice::<Digest>(&mp_i).ok();
+            let de_js = serde_json::from_str::<Digest>(&js_i).ok();
+            report("C04", "Digest", "deserialize", de_mp == t.clone().ok() && de_js == t.clone().ok(), format!("input {}", k));
+        }
     }
     // ------------------------------------------------------------ bounds are read when a value is made, not once
     {
